@@ -61,16 +61,19 @@ Definition same_ctl (s s' : state) : Prop :=
   current s' = current s /\
   (forall j, option_map ctl (get j (cos s')) = option_map ctl (get j (cos s))) /\
   (NoDup (map fst (cos s)) -> NoDup (map fst (cos s'))) /\
-  ((forall k c, get k (cos s) = Some c -> co_wf c) -> (forall k c, get k (cos s') = Some c -> co_wf c)).
+  ((forall k c, get k (cos s) = Some c -> co_wf c) -> (forall k c, get k (cos s') = Some c -> co_wf c)) /\
+  gcon s' = gcon s /\
+  (forall j, option_map co_reg (get j (cos s')) = option_map co_reg (get j (cos s))).
 
 Lemma same_ctl_refl : forall s, same_ctl s s.
-Proof. intros. split; [reflexivity|]. split; [reflexivity|]. split; auto. Qed.
+Proof. intros. split; [reflexivity|]. split; [reflexivity|]. split; [auto|]. split; [auto|]. split; reflexivity. Qed.
 
 Lemma same_ctl_trans : forall a b c, same_ctl a b -> same_ctl b c -> same_ctl a c.
 Proof.
-  intros a b c (A1 & A2 & A3 & A4) (B1 & B2 & B3 & B4).
+  intros a b c (A1 & A2 & A3 & A4 & A5 & A6) (B1 & B2 & B3 & B4 & B5 & B6).
   split; [congruence|]. split; [intro j; rewrite B2; apply A2|]. split; [auto|].
-  intros H. apply B4. apply A4. exact H.
+  split; [intros H; apply B4; apply A4; exact H|].
+  split; [congruence|]. intro j. rewrite B6. apply A6.
 Qed.
 
 Lemma InvC_ext : forall l l' cur,
@@ -86,32 +89,35 @@ Qed.
 
 Lemma same_ctl_Inv : forall s s', same_ctl s s' -> Inv s -> Inv s'.
 Proof.
-  intros s s' (A1 & A2 & A3 & A4) (I1 & I2 & I3). unfold Inv.
+  intros s s' (A1 & A2 & A3 & A4 & _) (I1 & I2 & I3). unfold Inv.
   split; [exact (A3 I1)|]. split; [exact (A4 I2)|]. rewrite A1. eapply InvC_ext; eauto.
 Qed.
 
 Lemma same_ctl_put : forall s k c c',
-  get k (cos s) = Some c -> ctl c' = ctl c -> (co_wf c -> co_wf c') ->
+  get k (cos s) = Some c -> ctl c' = ctl c -> co_reg c' = co_reg c -> (co_wf c -> co_wf c') ->
   same_ctl s (set_cos s (put k c' (cos s))).
 Proof.
-  intros s k c c' G E W. split; [reflexivity|]. split; [|split]; simpl.
+  intros s k c c' G E R W. split; [reflexivity|]. split; [|split; [|split; [|split]]]; simpl.
   - intro j. rewrite get_put. destruct (Nat.eqb k j) eqn:Ek; [|reflexivity].
     apply Nat.eqb_eq in Ek. subst j. rewrite G. simpl. f_equal. assumption.
   - apply NoDup_keys_put.
   - intros H j d. rewrite get_put. destruct (Nat.eqb k j) eqn:Ek.
     + intro X. inversion X; subst. apply W. eapply H; eauto.
     + apply H.
+  - reflexivity.
+  - intro j. rewrite get_put. destruct (Nat.eqb k j) eqn:Ek; [|reflexivity].
+    apply Nat.eqb_eq in Ek. subst j. rewrite G. simpl. f_equal. assumption.
 Qed.
 
 Lemma same_ctl_halted : forall s b, same_ctl s (set_halted s b).
-Proof. intros. split; [reflexivity|]. split; [reflexivity|]. split; auto. Qed.
+Proof. intros. split; [reflexivity|]. split; [reflexivity|]. split; [auto|]. split; [auto|]. split; reflexivity. Qed.
 
 Lemma same_ctl_mdepth : forall s d, same_ctl s (set_mdepth s d).
-Proof. intros. split; [reflexivity|]. split; [reflexivity|]. split; auto. Qed.
+Proof. intros. split; [reflexivity|]. split; [reflexivity|]. split; [auto|]. split; [auto|]. split; reflexivity. Qed.
 
 (* ---- storage operations *)
 Lemma push_co_wf : forall c b r c', co_wf c -> mco_push_co c (Some b) (List.length b) = (r, c') ->
-  co_wf c' /\ ctl c' = ctl c.
+  co_wf c' /\ ctl c' = ctl c /\ co_reg c' = co_reg c.
 Proof.
   intros c b r c' W H. pose proof (storage_length c W) as L. pose proof W as (_ & Hc & _).
   rewrite <- (wf_norm c W) in H. rewrite push_co_norm in H by lia.
@@ -119,12 +125,12 @@ Proof.
   - inversion H; subst. rewrite (wf_norm c W). auto.
   - destruct (Nat.ltb (co_cap c) (List.length (storage c) + List.length b)) eqn:E1.
     + inversion H; subst. rewrite (wf_norm c W). auto.
-    + apply Nat.ltb_ge in E1. inversion H; subst. split; [|reflexivity].
+    + apply Nat.ltb_ge in E1. inversion H; subst. split; [|split; reflexivity].
       apply norm_wf. rewrite app_length. lia.
 Qed.
 
 Lemma pop_co_wf : forall c dest len r c' d, co_wf c -> mco_pop_co c dest len = (r, c', d) ->
-  co_wf c' /\ ctl c' = ctl c.
+  co_wf c' /\ ctl c' = ctl c /\ co_reg c' = co_reg c.
 Proof.
   intros c dest len r c' d W H. pose proof (storage_length c W) as L. pose proof W as (_ & Hc & _).
   rewrite <- (wf_norm c W) in H. rewrite pop_co_norm in H by lia.
@@ -132,7 +138,7 @@ Proof.
   - inversion H; subst. rewrite (wf_norm c W). auto.
   - destruct (Nat.ltb (List.length (storage c)) len) eqn:E1.
     + inversion H; subst. rewrite (wf_norm c W). auto.
-    + inversion H; subst. split; [|reflexivity].
+    + inversion H; subst. split; [|split; reflexivity].
       apply norm_wf. rewrite firstn_length. lia.
 Qed.
 
@@ -141,7 +147,7 @@ Proof.
   intros k b s r s' (I1 & I2 & I3) H. unfold mco_push in H.
   destruct (get k (cos s)) as [c|] eqn:G.
   - destruct (mco_push_co c (Some b) (List.length b)) as [r0 c'] eqn:P.
-    destruct (push_co_wf _ _ _ _ (I2 _ _ G) P) as (W & E).
+    destruct (push_co_wf _ _ _ _ (I2 _ _ G) P) as (W & E & Rg).
     destruct (is_success r0); inversion H; subst.
     + eapply same_ctl_put; eauto.
     + apply same_ctl_refl.
@@ -153,7 +159,7 @@ Proof.
   intros k dest len s r s' d (I1 & I2 & I3) H. unfold mco_pop in H.
   destruct (get k (cos s)) as [c|] eqn:G.
   - destruct (mco_pop_co c dest len) as [[r0 c'] d0] eqn:P.
-    destruct (pop_co_wf _ _ _ _ _ _ (I2 _ _ G) P) as (W & E).
+    destruct (pop_co_wf _ _ _ _ _ _ (I2 _ _ G) P) as (W & E & Rg).
     destruct (is_success r0); inversion H; subst.
     + eapply same_ctl_put; eauto.
     + apply same_ctl_refl.
@@ -456,12 +462,16 @@ Proof.
   eapply mco_yield_running_Inv; eauto.
 Qed.
 
-Lemma gc_unregister_same : forall k s s1, gc_unregister k s = Some s1 -> same_ctl s s1.
+Lemma gc_unregister_Inv : forall k s s1, Inv s -> gc_unregister k s = Some s1 -> Inv s1.
 Proof.
-  intros k s s1 H. unfold gc_unregister in H.
-  destruct (get k (cos s)) as [c|] eqn:G; [|inversion H; subst; apply same_ctl_refl].
-  destruct (co_reg c); inversion H; subst.
-  eapply same_ctl_put; eauto.
+  intros k s s1 (I1 & I2 & I3) H. unfold gc_unregister in H.
+  destruct (get k (cos s)) as [c|] eqn:G; [|inversion H; subst; split; [|split]; assumption].
+  destruct (co_reg c); inversion H; subst. unfold Inv. simpl. split; [|split].
+  - apply NoDup_keys_put. assumption.
+  - intros j d. rewrite get_put. destruct (Nat.eqb k j); [|apply I2].
+    intro X. inversion X; subst. apply (I2 k c G).
+  - eapply InvC_ext; [|exact I3]. intro j. rewrite get_put.
+    destruct (Nat.eqb k j) eqn:E; [|reflexivity]. apply Nat.eqb_eq in E. subst j. rewrite G. reflexivity.
 Qed.
 
 Lemma co_destroy_Inv : forall k s r s', Inv s -> co_destroy k s = (r, s') -> Inv s'.
@@ -470,9 +480,11 @@ Proof.
   destruct (gcon s && DESTROY_UNREGISTERS_FIRST).
   - destruct (gc_unregister k s) as [s1|] eqn:U; [|inversion H; subst; assumption].
     destruct (mco_destroy k s1) as [e s2] eqn:D. inversion H; subst.
-    eapply mco_destroy_Inv; [|exact D]. eapply same_ctl_Inv; [eapply gc_unregister_same; eauto|assumption].
-  - destruct (mco_destroy k s) as [e s2] eqn:D. inversion H; subst.
-    eapply mco_destroy_Inv; eauto.
+    eapply mco_destroy_Inv; [|exact D]. eapply gc_unregister_Inv; eauto.
+  - destruct (mco_destroy k s) as [e s2] eqn:D.
+    pose proof (mco_destroy_Inv _ _ _ _ I D) as I2.
+    destruct (is_success e && gcon s); [|inversion H; subst; assumption].
+    destruct (get k (cos s)) as [c|]; [destruct (co_reg c)|]; inversion H; subst; assumption.
 Qed.
 
 (* ---- the interpreter *)
